@@ -13,6 +13,8 @@
       adjust_unblocks_all   window exhausted + reader drained ⇒ an adjust is in flight, handling it wakes all
                             writers and EVERY writer with data can then put a packet on the wire
       signal_loses_wakeup   with Cond.Signal (the seeded bug) a parked writer with window available is reachable
+      adjust_must_be_atomic in the LTS `stepS` where the adjust goes on the wire before myWindow is credited a
+                            COMPLIANT sender makes the receiver complain (witness): advertise+credit is one step
   SEVERAL channels on one connection (`stepM`, shared FIFO wires):
       proj_step, channel_run_of_connection_run   every channel of a connection run is a single-channel run
       credit_conservation_conn, never_exceeds_window_conn, stream_integrity_conn
